@@ -78,6 +78,7 @@ func BFS[S any](t *T, m Machine[S], depth int) (int, int) {
 					continue
 				}
 				seen[k] = struct{}{}
+				t.Nontrivial(m.Name + "\x00" + k)
 				hh := append(append([]int{}, h...), op)
 				next = append(next, hh)
 				if !sampled && d == depth-1 {
@@ -118,7 +119,11 @@ func Deviations[S any](t *T, m Machine[S], def, horizon, bound int) (int, int) {
 			if !cont {
 				break
 			}
-			seen[m.Key(s)] = struct{}{}
+			k := m.Key(s)
+			if _, dup := seen[k]; !dup {
+				seen[k] = struct{}{}
+				t.Nontrivial(m.Name + "\x00" + k)
+			}
 		}
 		traces++
 		if traces == 2 {
